@@ -1,6 +1,7 @@
 #![allow(dead_code)]
 mod ast;
 mod compile;
+mod exprtext;
 mod gen_lp;
 mod gen_model;
 mod points;
@@ -24,7 +25,9 @@ fn drivers() -> Vec<Box<dyn Driver>> {
         Box::new(props::c04::C05),
         Box::new(props::c07::C07),
         Box::new(props::c07::C08),
+        Box::new(props::c09::C09),
         Box::new(props::c10::C10),
+        Box::new(props::c11::C11),
         Box::new(props::c12::C12),
         Box::new(props::c13::C13),
         Box::new(props::c14::C14),
@@ -114,6 +117,14 @@ fn main() {
                 Ok(LpAnswer::Optimal { x, value }) => println!("optimal {} at {}", show(&value), show_vec(&x)),
                 Ok(o) => println!("{}", o.kind()),
                 Err(e) => println!("oracle failed: {e}"),
+            }
+        }
+        "try-expr" => {
+            // rv try-expr '<expression>': compile it as an objective and print the tree or the error
+            let nm = props::c09::names();
+            match props::c09::compiled_objective(&props::c09::program_for(&args[2]), &nm) {
+                Ok(e) => println!("{}", e.show(&nm)),
+                Err(e) => println!("ERR {e}"),
             }
         }
         "debug-c14" => {
